@@ -95,6 +95,12 @@ def late_pin_family():
                               ("update", [{"op": "insert", "k": 1, "v": vb}, {"op": "flush"}])):
                     progs.append(("latepin_%s_%s_%s_%s" % (tag, "c" if cache else "n", rn, wn),
                                   {"cfg": cfg, "keys": ["k1", "k2"], "init": init, "points": points, "threads": [r, w]}))
+                    # the same race at the granularity of the extent word itself (hook: a scheduling point
+                    # after every load of the word): the reader stands between loading the word and its
+                    # compare-exchange while the retirement pass sets the bit and counts the readers
+                    progs.append(("wordpin_%s_%s_%s_%s" % (tag, "c" if cache else "n", rn, wn),
+                                  {"cfg": cfg, "keys": ["k1", "k2"], "init": init,
+                                   "points": ["ext_load", "rd_pinned", "ret_device", "ret_release"], "threads": [r, w]}))
     return progs
 
 
